@@ -273,6 +273,11 @@ std::vector<std::string> Entity::getPortsVHDL()
 		std::stringstream line;
 		line << decl.name << " : OUT ";
 		cf.formatConnectionType(line, decl);
+		// a register that drives an output port directly keeps its power-on value (as local signals do in declareLocalSignals)
+		if (auto it = m_localSignalDefaultValues.find(signal); it != m_localSignalDefaultValues.end()) {
+			line << " := ";
+			formatConstant(line, it->second, decl.dataType);
+		}
 		unsortedPortList.push_back({clockOffset + signal.node->getId(), line.str()});
 	}
 
